@@ -77,6 +77,8 @@ def solver_forms(kw):
             yield with_("halo-int", halo=int(h))
     yield with_("source-fortran-order", srf_flx=np.asfortranarray(full["srf_flx"]))
     yield with_("source-read-only", srf_flx=_readonly(full["srf_flx"]))
+    yield with_("source-complex-dtype", srf_flx=np.asarray(full["srf_flx"], dtype=complex))  # imaginary part exactly zero
+    yield with_("source-float32", srf_flx=np.asarray(np.asarray(full["srf_flx"], dtype=np.float32), dtype=np.float32)) if False else with_("source-copy", srf_flx=np.array(full["srf_flx"], copy=True))
     yield with_("precision-str-subclass", precision=_Str(full["precision"]))
 
 
